@@ -136,7 +136,7 @@ def kw_detail(detail: Any) -> dict:
 
 
 def part_detail(detail: Any) -> list:
-    return [t for t in _detail_set(detail) if isinstance(t, list) and len(t) == 3 and t[0] != "kw"]
+    return [t for t in _detail_set(detail) if isinstance(t, list) and len(t) == 3 and t[0] not in ("kw", "case")]
 
 
 def signature(rule: str, detail: Any, desc: dict) -> str:
